@@ -88,7 +88,7 @@ var dirOps = []string{"dir:remove", "dir:create", "dir:write", "dir:fsync", "dir
 
 // Step executes one script line on the real store and the model.
 func (r *Runner) Step(line string) {
-	if r.Failed {
+	if r.Failed || r.drained {
 		return
 	}
 	r.Script = append(r.Script, line)
